@@ -494,6 +494,14 @@ def fold(t, env, calls=None):
         h = calls(t[1]) if calls else None
         if h is not None:
             return h(*[fold(x, env, calls) for x in t[2]])
+        # built-in models of a few pure core helpers on constant data
+        if t[1].endswith("::contains") and "ops::range::Range" in t[1] and len(t[2]) == 2:
+            r = fold(t[2][0], env, calls)
+            x = _num(fold(t[2][1], env, calls))
+            if isinstance(r, dict) and isinstance(r.get("start"), int) and isinstance(r.get("end"), int):
+                return r["start"] <= x <= r["end"] if "RangeInclusive" in t[1] or "exhausted" in r else r["start"] <= x < r["end"]
+            if isinstance(r, list) and len(r) == 2:
+                return r[0] <= x <= r[1] if "RangeInclusive" in t[1] else r[0] <= x < r[1]
         raise CannotFold("call to " + t[1])
     if k == "agg":
         vals = [fold(x, env, calls) for x in t[2]]
